@@ -105,7 +105,7 @@ Lemma oas_spec t d : tvalid t -> valid d ->
 Proof.
   intros [Ht1 Ht2] Hd. pose proof Hd as [Hd1 Hd2].
   unfold Time.overflowing_add_signed.
-  rewrite num_seconds_spec, subsec_nanos_spec by assumption. cbn [bind]. unfold Time.oas_body.
+  rewrite num_seconds_spec, subsec_nanos_spec by assumption. cbn [bind].
   destruct (quot_rem_G (ns d)) as [q [r [-> [-> [E [P N]]]]]].
   unfold tns, tvalid. unfold in_rng, RMIN, RMAX, G in *.
   rewrite as_i64_id, as_i32_id by solve_in.
